@@ -28,15 +28,18 @@ def findings_table():
 
 def matrix_table():
     out = []
-    for rnd, fn in (("round 1", "MATRIX.json"), ("round 2 (as first measured)", "MATRIX-round2-first.json"), ("round 2 (after strengthening)", "MATRIX-round2.json")):
+    for rnd, fn in (("round 1", "MATRIX.json"), ("round 2 (as first measured)", "MATRIX-round2-first.json"), ("round 2 (after strengthening)", "MATRIX-round2.json"),
+                    ("round 3 (as first measured)", "MATRIX-round3-first.json"), ("round 3 (after strengthening)", "MATRIX-round3.json")):
         p = os.path.join(VERIF, "seeded", fn)
         if not os.path.exists(p):
             continue
         m = json.load(open(p))["results"]
         if rnd.startswith("round 1"):
-            m = {k: v for k, v in m.items() if "-r2" not in k}
+            m = {k: v for k, v in m.items() if "-r2" not in k and "-r3" not in k}
         if rnd.startswith("round 2"):
             m = {k: v for k, v in m.items() if "-r2" in k}
+        if rnd.startswith("round 3"):
+            m = {k: v for k, v in m.items() if "-r3" in k}
         if not m:
             continue
         own = sum(1 for k, v in m.items() if k[:3] in v["caught_by"])
